@@ -1,0 +1,16 @@
+//go:build verif
+
+package datalog
+
+// SimYield, when non-nil, is called by the engine's goroutines at every
+// synchronisation point (goroutine start, before a channel send, after a
+// channel receive, at every iteration and rule of the Run loop). A simulator
+// parks the calling goroutine there and releases it when its schedule says so.
+// Only compiled with the "verif" build tag.
+var SimYield func(site string)
+
+func simYield(site string) {
+	if f := SimYield; f != nil {
+		f(site)
+	}
+}
